@@ -83,8 +83,9 @@ Proof. rewrite sty_eqb_sym. apply sty_eqb_SUInt_r. Qed.
 Lemma is_int_cong (a b : sty) : sty_eqb a b = true -> is_int a = is_int b.
 Proof. destruct a, b; cbn [sty_eqb]; intros H; try discriminate H; reflexivity. Qed.
 
-Lemma op_class_ok_cong (op : binop) (a b : sty) : sty_eqb a b = true -> op_class_ok op a = op_class_ok op b.
-Proof. destruct a, b; cbn [sty_eqb]; intros H; try discriminate H; destruct op; reflexivity. Qed.
+Lemma op_class_ok_cong (op : binop) (a b : sty) :
+  ord_array op a = false -> sty_eqb a b = true -> op_class_ok op a = op_class_ok op b.
+Proof. destruct a, b; cbn [sty_eqb]; intros Ho H; try discriminate H; destruct op; try reflexivity; discriminate Ho. Qed.
 
 Lemma sty_name_cong (a b : sty) : sty_eqb a b = true -> sty_name a = sty_name b.
 Proof.
@@ -295,10 +296,34 @@ Lemma interp_ECall G f a :
   (bs <- callee_bindings GE G f ;; al <- interp_args md GE G a ;;
    Ok (flat_map (fun c => repeat (snd c) (call_ways (fst c) al)) (funs_of bs))).
 Proof. reflexivity. Qed.
+Lemma interp_EBin_full G i op l r :
+  interp md GE G (EBin i op l r) =
+  (if is_aggregate r then
+     if is_aggregate l then Ok [] else
+     li <- interp md GE G l ;;
+     match agg_type G op li with
+     | Some t => root md GE G t r ;;; Ok [op_result op t]
+     | None => Ok []
+     end
+   else if is_aggregate l then
+     ri <- interp md GE G r ;;
+     match agg_type G op ri with
+     | Some t => root md GE G t l ;;; Ok [op_result op t]
+     | None => Ok []
+     end
+   else li <- interp md GE G l ;; ri <- interp md GE G r ;; Ok (op_interps G op li ri)).
+Proof. reflexivity. Qed.
+Lemma interp_EAgg_nil G i els : interp md GE G (EAgg i els) = Ok [].
+Proof. reflexivity. Qed.
 Lemma interp_EBin G i op l r :
+  is_aggregate l = false -> is_aggregate r = false ->
   interp md GE G (EBin i op l r) =
   (li <- interp md GE G l ;; ri <- interp md GE G r ;; Ok (op_interps G op li ri)).
-Proof. reflexivity. Qed.
+Proof. intros Hl Hr. rewrite interp_EBin_full, Hl, Hr. reflexivity. Qed.
+Lemma interp_in_not_agg G e l x : interp md GE G e = Ok l -> In x l -> is_aggregate e = false.
+Proof.
+  intros H Hin. destruct e; try reflexivity. rewrite interp_EAgg_nil in H. injection H as <-. destruct Hin.
+Qed.
 Lemma interp_ENot G i e :
   interp md GE G (ENot i e) =
   (li <- interp md GE G e ;; Ok (filter (fun t => match t with SBool | SBit => true | _ => false end) li)).
@@ -394,14 +419,15 @@ Qed.
 
 Lemma bin_case G i op l r al ar t :
   Pe G l al -> Pe G r ar -> fits t al = true -> fits t ar = true ->
-  sty_eqb al t || sty_eqb ar t = true -> op_class_ok op t = true -> ops_visible G t = true ->
+  sty_eqb al t || sty_eqb ar t = true -> op_class_ok op t = true -> ord_array op t = false -> ops_visible G t = true ->
   Pe G (EBin i op l r) (op_result op t).
 Proof.
-  intros IHl IHr Hfl Hfr Hor Hcls Hvis.
+  intros IHl IHr Hfl Hfr Hor Hcls Hord Hvis.
   destruct (Pe_use G l al t IHl Hfl) as (li & Hli & al' & Hinl & Heql & Hfl' & _).
   destruct (Pe_use G r ar t IHr Hfr) as (ri & Hri & ar' & Hinr & Heqr & Hfr' & _).
   exists (op_interps G op li ri). split.
-  { rewrite interp_EBin, Hli. cbn [bind]. rewrite Hri. reflexivity. }
+  { rewrite (interp_EBin G i op l r (interp_in_not_agg G l li al' Hli Hinl) (interp_in_not_agg G r ri ar' Hri Hinr)), Hli.
+    cbn [bind]. rewrite Hri. reflexivity. }
   intros _.
   (* a representative t' of the class of t among the candidate operand types *)
   assert (Hrep : exists t', In t' (dedup (li ++ ri)) /\ sty_eqb t t' = true).
@@ -420,7 +446,7 @@ Proof.
   apply existsb_exists. exists (op_result op t'). split.
   - unfold op_interps. apply in_flat_map. exists t'. split.
     + unfold op_types. apply filter_In. split; [exact Hint'|].
-      rewrite <- (op_class_ok_cong op t t' Htt'), Hcls, <- (ops_visible_cong G t t' Htt'), Hvis.
+      rewrite <- (op_class_ok_cong op t t' Hord Htt'), Hcls, <- (ops_visible_cong G t t' Htt'), Hvis.
       cbn [andb]. destruct t'; try reflexivity. apply Hu. reflexivity.
     + apply in_repeat_pos. apply mul_ge1.
       * apply (count_fits_in t' al' li Hinl). rewrite <- (fits_cong_l t t' al' Htt'). exact Hfl'.
@@ -447,8 +473,20 @@ Proof.
     intros Hrefl. apply existsb_exists. exists r. split; [|exact Hrefl].
     apply (in_call_interps ps r (funs_of bs) al Hin). unfold call_ways. rewrite Hassoc. exact Hways.
   - (* HT_Bin *)
-    intros i op l r al ar t _ IHl _ IHr Hfl Hfr Hor Hcls Hvis.
-    exact (bin_case G i op l r al ar t IHl IHr Hfl Hfr Hor Hcls Hvis).
+    intros i op l r al ar t _ IHl _ IHr Hfl Hfr Hor Hcls Hord Hvis.
+    exact (bin_case G i op l r al ar t IHl IHr Hfl Hfr Hor Hcls Hord Hvis).
+  - (* HT_BinAggR *)
+    intros i op l r li t Hl Hr Hli Hat _ IHr. unfold Pr in IHr.
+    exists [op_result op t]. split.
+    { rewrite interp_EBin_full, Hr, Hl, Hli. cbn [bind]. rewrite Hat, IHr. reflexivity. }
+    intros Hrefl. cbn [existsb]. rewrite Hrefl. reflexivity.
+  - (* HT_BinAggL *)
+    intros i op l r ri t Hl Hr Hri Hat _ IHl. unfold Pr in IHl.
+    exists [op_result op t]. split.
+    { rewrite interp_EBin_full, Hr, Hl, Hri. cbn [bind]. rewrite Hat, IHl. reflexivity. }
+    intros Hrefl. cbn [existsb]. rewrite Hrefl. reflexivity.
+  - (* HT_OrdArr *)
+    intros i l r lst Hi Hex. exists lst. split; [exact Hi|]. intros _. exact Hex.
   - (* HT_Not *)
     intros i e t _ (li & Hli & Hex) Ht.
     exists (filter (fun t => match t with SBool | SBit => true | _ => false end) li). split.
